@@ -16,8 +16,8 @@ from pathlib import Path
 from qv.core import HarnessError, js
 
 ROOT = Path(__file__).resolve().parent.parent
-EVIDENCE = ROOT / "evidence"
-REPLAYS = ROOT / "replays"
+EVIDENCE = Path(os.environ.get("QV_OUT_DIR", ROOT)) / "evidence"
+REPLAYS = Path(os.environ.get("QV_OUT_DIR", ROOT)) / "replays"
 FINDINGS = ROOT / "known_findings.json"
 
 
